@@ -247,7 +247,7 @@ def gen_c01_spec(rng: random.Random, maxn: int = 40) -> Dict[str, Any]:
     for i in range(n):
         r = rng.random()
         kind = "valid" if r < 0.75 else ("malformed" if r < 0.9 else "unknown")
-        m: Dict[str, Any] = {"at": ats[i], "kind": kind, "variant": rng.randint(0, 12),
+        m: Dict[str, Any] = {"at": ats[i], "kind": kind, "variant": rng.randint(0, 15),
                              "task": rng.choice(["t_async", "t_async", "t_sync", "t_async", "t_async", "t_sync", "t_asyncified"]),
                              "ackable": rng.random() < 0.5,
                              "beh": gen_beh(rng, ["ok", "ok", "raise", "noresult"])}
@@ -510,6 +510,12 @@ def gen_c02_spec(rng: random.Random) -> Dict[str, Any]:
         if rng.random() < 0.1:
             m["partial_types"] = True
             m["labels"] = {"origin": "cron"}
+        if rng.random() < 0.07:
+            # a delivery this worker cannot process (task of another deployment, garbage): its configured point is never
+            # reached, it stays with the broker for redelivery
+            m["kind"] = rng.choice(["unknown", "unknown", "malformed"])
+            m["variant"] = rng.randint(0, 15)
+            m["ackable"] = True
         elif rng.random() < 0.12:
             # labels that are not plain text: binary values, and structured values from a producer that sends bare JSON
             m["labels"] = rng.choice([{"digest": b"\xff\xfe\x00"}, {"tags": ["a", "b"], "meta": {"k": 1}}, {"ratio": 0.25, "none": None}])
@@ -700,6 +706,11 @@ def gen_c03_spec(rng: random.Random, maxn: int = 40) -> Dict[str, Any]:
         "backend": {"lat": rng.choice([0, "y", 0.01]), "fail": fail, "fail_cancel": fail_cancel},
         "_probe_toks": probe_toks,
     }
+    if fail and rng.random() < 0.5:
+        # the store refuses these results for good, with the error classes of a network client
+        spec["backend"]["fail_exc"] = rng.choice(["ConnectionError", "ConnectionError", "TimeoutError", "socket.timeout", "KeyError"])
+    if rng.random() < 0.1:
+        spec["cfg"]["no_executor"] = True  # Receiver(executor=None): sync functions go to the loop's default pool
     if rng.random() < 0.2:
         # some task functions wait for a reply held only by a weak registry while the garbage collector runs
         for m in msgs[:n]:
@@ -832,13 +843,13 @@ def gen_c04_spec(rng: random.Random, A: int, P: int) -> Dict[str, Any]:
     if rng.random() < 0.2:
         # junk on a shared queue: unparseable messages / messages for unknown tasks reach the worker before the backlog
         k = rng.randint(1, 6)
-        junk = [{"at": 0.0, "kind": rng.choice(["malformed", "unknown"]), "variant": rng.randint(0, 12), "task": "t_async", "ackable": False,
+        junk = [{"at": 0.0, "kind": rng.choice(["malformed", "unknown"]), "variant": rng.randint(0, 15), "task": "t_async", "ackable": False,
                  "beh": {"dur": [], "out": "ok"}} for _ in range(k)]
         for m in msgs:
             m["at"] = round(m["at"] + 0.5, 6)
         msgs = junk + msgs
-    spec: Dict[str, Any] = {"cfg": {"A": A, "P": P, "ack": "when_saved", "threads": 32}, "msgs": msgs,
-                            "backend": {"lat": rng.choice([0, 0.05, 0.2])}}
+    spec: Dict[str, Any] = {"cfg": {"A": A, "P": P, "ack": rng.choice(["when_saved", "when_saved", "when_executed", "when_received"]), "threads": 32},
+                            "msgs": msgs, "backend": {"lat": rng.choice([0, 0.05, 0.2, 0.2, 2.6])}}
     if not sync_tasks and rng.random() < 0.15:
         # task functions with yield-style dependencies whose teardown takes time: the message is being processed
         # until they are closed
@@ -977,7 +988,7 @@ def gen_c05_spec(rng: random.Random, maxn: int = 16) -> Dict[str, Any]:
              "ack_raise": rng.random() < 0.08,
              "ack_lat": rng.choice([0, 0, "y", 0.05, 0.4]), "beh": beh,
              "kind": "valid" if rng.random() < 0.9 else rng.choice(["malformed", "unknown"]),
-             "variant": rng.randint(0, 12)}
+             "variant": rng.randint(0, 15)}
         if beh.get("cleanup"):
             m["timeout"] = rng.choice([0.05, 0.2])
         msgs.append(m)
@@ -1409,11 +1420,13 @@ def gen_c07_spec(rng: random.Random) -> Dict[str, Any]:
         beh = gen_beh(rng, ["ok", "ok", "raise", "raise", "noresult"], allow_genexit=True)
         m: Dict[str, Any] = {"at": ats[i], "task": task, "ackable": rng.random() < 0.5, "beh": beh,
                              "labels": rng.choice([{}, {"a": 1}, {"s": "x", "f": 1.5, "b": True}, {"by": b"\xff\x00"},
-                                                   {"_trace": "t-9", "X-Taskiq-origin": "edge", "__n": 2}])}
+                                                   {"_trace": "t-9", "X-Taskiq-origin": "edge", "__n": 2}, {"blob": b"", "z": 0, "e": "", "ff": False}])}
         if task == "t_sync":
             beh["dur"] = []
         if beh["out"] == "ok" and rng.random() < 0.1:
             beh["ret_handle"] = True  # the return value is an object with __await__ (sync and async functions alike)
+        elif beh["out"] == "ok" and rng.random() < 0.08:
+            beh["ret_exc"] = True  # the return value is an exception instance
         if task == "t_sync":
             pass
         elif rng.random() < 0.45:
